@@ -3,5 +3,5 @@ CONSTANTS
   Alphabet <- AlphaFull
 INIT Init
 NEXT Next
-INVARIANTS Satisfiable Sensitive
+INVARIANTS Satisfiable SatisfiableOpen Sensitive
 CHECK_DEADLOCK FALSE
